@@ -17,6 +17,7 @@
 (* graphs (records are loaded from JSON by the judges).                    *)
 (***************************************************************************)
 EXTENDS Naturals, Sequences, FiniteSets
+FSE == INSTANCE FiniteSetsExt   \* (named: FiniteSetsExt brings in Functions!Range, which this module also defines)
 
 Range(f) == {f[i] : i \in DOMAIN f}
 Last(s) == s[Len(s)]
@@ -46,6 +47,8 @@ FamilySucc(g, s) ==
          IF s <= 2 * L THEN LET side == (s - 1) \div L  lvl == (s - 1) % L IN
                             <<IF lvl + 1 < L THEN side * L + lvl + 2 ELSE 0, 2 * L + lvl + 1>>
          ELSE <<>>
+    [] g.family = "twochains" ->    \* two disjoint chains (odd / even nodes) starting in the two initial states 1 and 2
+         <<IF s + 2 <= g.n THEN s + 2 ELSE 0>>
     [] g.family = "tree" ->
          <<IF 2 * s <= g.n THEN 2 * s ELSE 0, IF 2 * s + 1 <= g.n THEN 2 * s + 1 ELSE 0>>
     [] g.family = "chainbush" ->
@@ -60,24 +63,29 @@ SuccBF(g)      == [s \in Nodes(g) |-> SuccB(g, s)]
 \* a state from which no transition stays inside the boundary
 Terminal(g, s) == SuccB(g, s) = {}
 
-(* least fixpoint: everything reachable from `frontier' through sf *)
-RECURSIVE Clo(_, _, _)
+(* least fixpoint: everything reachable from `frontier' through sf.  One semi-naive step per fold iteration; the
+   number of BFS layers is at most the number of nodes, and a step on an empty frontier is the identity.  (Written as
+   a fold, which TLC evaluates iteratively: the recursive form overflows the Java stack on graphs thousands of layers
+   deep.) *)
+CloStep(sf, p) ==
+  IF p[2] = {} THEN p
+  ELSE LET nxt == (UNION {sf[s] : s \in p[2]}) \ p[1]
+       IN  <<p[1] \cup nxt, nxt>>
 Clo(sf, seen, frontier) ==
-  IF frontier = {} THEN seen
-  ELSE LET nxt == (UNION {sf[s] : s \in frontier}) \ seen
-       IN  Clo(sf, seen \cup nxt, nxt)
+  FSE!FoldSet(LAMBDA i, p : CloStep(sf, p), <<seen, frontier>>, 1..Cardinality(DOMAIN sf))[1]
 
 \* (the ladder family is thousands of levels deep, too deep for the recursive fixpoint in TLC; both rails start in
 \*  init, so every node is reachable -- TLC's own exploration of the ladder (MCGraph) confirms the count)
-Reach(g) == IF g.family = "ladder" THEN Nodes(g) ELSE Clo(SuccBF(g), InitB(g), InitB(g))
+Reach(g) == IF g.family \in {"ladder", "twochains"} THEN Nodes(g) ELSE Clo(SuccBF(g), InitB(g), InitB(g))
 
 (* BFS layers; Layers(g)[d] = states whose shortest in-boundary path from an
    in-boundary initial state has d states (d-1 transitions) *)
-RECURSIVE LayersFrom(_, _, _, _)
+LayersStep(sf, p) ==
+  IF p[2] = {} THEN p
+  ELSE LET nxt == (UNION {sf[s] : s \in p[2]}) \ p[1]
+       IN  <<p[1] \cup nxt, nxt, Append(p[3], p[2])>>
 LayersFrom(sf, seen, frontier, acc) ==
-  IF frontier = {} THEN acc
-  ELSE LET nxt == (UNION {sf[s] : s \in frontier}) \ seen
-       IN  LayersFrom(sf, seen \cup nxt, nxt, Append(acc, frontier))
+  FSE!FoldSet(LAMBDA i, p : LayersStep(sf, p), <<seen, frontier, acc>>, 1..(Cardinality(DOMAIN sf) + 1))[3]
 Layers(g) == LayersFrom(SuccBF(g), InitB(g), InitB(g), <<>>)
 DepthIn(layers, s) == CHOOSE d \in 1..Len(layers) : s \in layers[d]
 
